@@ -152,7 +152,7 @@ func c11R2(c *Ctx, rule string) {
 					}
 				}
 			}
-			if viaHelper || (co.fn == shortName(s.Fn) || p.inClusterOf(p.funcByShortName(co.fn), s.Fn)) && co.callee == calleeName(s.Call.Common()) && co.arg == s.ArgDesc {
+			if viaHelper || (co.fn == shortName(s.Fn) || p.inClusterOf(p.funcByShortName(co.fn), s.Fn)) && co.callee == calleeName(s.Call.Common()) && (co.arg == s.ArgDesc || s.ArgDesc == "" && co.arg == "Evaluator.patternRules") {
 				matched[i]++
 				for _, k := range co.kinds {
 					allowed |= ek.Sentinel(k)
